@@ -331,7 +331,8 @@ def main(ctx):
 
     LARGE = []
     for descr, rows in (
-            ([("a", "<i8"), ("x", "<f8")], (4095, 4096, 4097, 65535, 65536, 65537, 131072)),         # 16-byte rows
+            ([("a", "<i8"), ("x", "<f8")], (4095, 4096, 4097, 65535, 65536, 65537, 131072,          # 16-byte rows
+                                            99999, 100000, 100001, 999999, 1000000, 1000001, 2000000)),   # ... and decimal marks
             ([("a", "<i4"), ("x", ">f8")], (5461, 5462, 87381, 87382)),                             # 12-byte rows
             ([("s", "S1024")], (63, 64, 65, 1023, 1024, 1025, 2048)),                               # 1 KiB rows
             ([("s", "S1100000"), ("k", "<i2")], (1, 2))):                                           # a row wider than 1 MiB
